@@ -45,6 +45,11 @@ CHECKS = {
     technique='TLA+/TLC: model run of TechlibT.tla on the published pin tables and implementation circuits of all library cells; truth tables enumerated as TLC states',
     text='Complete over the five built-in libraries (1026 names): pins listed once, numbered 0..n-1 in declaration order, in agreement with the implementation ports, every name of a pattern defined, pin names per vendor convention of the library variant; for the 656 cells of a combinational datasheet family (AND/OR/NAND/NOR/XOR/XNOR, buffers, inverters, AO/OA/AOI/OAI groupings incl. 221/222/33/211, MUX2/MUX4, half/full adders) TLC evaluates the implementation circuit with the TLA+ netlist semantics over all 2^n inputs and compares every output pin with the datasheet function its name denotes.',
     note='Trusted: the name -> (family, pin grouping/roles, vendor pin names) classification table in harness/c19.py; TLC, JSON reader, projection. The evaluation is by the specification, not by kyupy\'s simulator (the simulator is bound to the same semantics by C01). Other cell families get pin-table checks only.'),
+ 'C17': dict(
+    cat='model_checking', ref='DESIGN.md §4 C17, §3 (Traverse, Locs)',
+    technique='TLA+/TLC: position-by-position validation of the sequences yielded by the real traversal generators against the abstract order specification Traverse.tla; lookup results against Locs.tla',
+    text='For seeded random circuits (both styles, unconnected pins, isolated nodes, flip-flops and latches as cut points) TLC validates every position of the sequences yielded by topological_order, topological_order_with_level, topological_line_order, reversed_topological_order and fanin(random origin sets): each node/line exactly once and all of them, drivers before readers, sources first, level = 1 + max level of the connected drivers, mirrored order valid for the reversed graph, fan-in sound (only nodes with a path) and complete (every node with a combinational path). Any valid order is accepted. io_locs/s_locs are compared with the TLA+ bus-nesting function on structurally generated names (6 index styles, gaps, two dimensions, prefix collisions).',
+    note='Circuits acyclic after the cut, single-driver forks. Non-origin state elements feeding the cone may or may not be yielded. Prefixes are plain identifiers. Trusted: TLC, JSON reader, harness projection and name rendering.'),
  'C07': dict(
     cat='model_checking', ref='DESIGN.md §4 C07, §3 (Schedule, ThreadOrder, SchedReplay)',
     technique='TLA+/TLC: model run of Schedule.tla on the published schedule (all Begin/End interleavings for narrow levels, level-wise static form for all); TLC-simulated thread orders (ThreadOrder.tla) replayed into the real simulators, judged by SchedReplay.tla',
